@@ -10,6 +10,8 @@ import (
 	"encoding/json"
 	"errors"
 	"fmt"
+	"io"
+	"log"
 	"math/rand"
 	"net"
 	"os"
@@ -53,6 +55,13 @@ type sim struct {
 	order   []int // ids of spawned handlers in spawn order
 	trace   []map[string]any
 	returned bool
+}
+
+// the stock loggers write to os.Stderr as it is when the option is built: silence it for this test process
+func init() {
+	if f, err := os.OpenFile(os.DevNull, os.O_WRONLY, 0); err == nil {
+		os.Stderr = f
+	}
 }
 
 func h(b []byte) string { s := sha256.Sum256(b); return hex.EncodeToString(s[:8]) }
@@ -296,7 +305,8 @@ func (s *sim) run(t *testing.T, steps []step, randomN int) {
 	if s.v4 {
 		srv, err := server4.NewServer("", nil, func(conn net.PacketConn, peer net.Addr, m *dhcpv4.DHCPv4) {
 			s.handle(peer, m.ToBytes)
-		}, server4.WithConn(s))
+		}, append([]server4.ServerOpt{server4.WithConn(s)}, [][]server4.ServerOpt{nil, {server4.WithSummaryLogger()}, {server4.WithDebugLogger()},
+			{server4.WithLogger(server4.DebugLogger{Printfer: log.New(io.Discard, "", 0)})}}[s.rng.Intn(4)]...)...) // any logging configuration
 		if err != nil {
 			t.Fatal(err)
 		}
@@ -304,7 +314,8 @@ func (s *sim) run(t *testing.T, steps []step, randomN int) {
 	} else {
 		srv, err := server6.NewServer("", nil, func(conn net.PacketConn, peer net.Addr, m dhcpv6.DHCPv6) {
 			s.handle(peer, m.ToBytes)
-		}, server6.WithConn(s))
+		}, append([]server6.ServerOpt{server6.WithConn(s)}, [][]server6.ServerOpt{nil, {server6.WithSummaryLogger()}, {server6.WithDebugLogger()},
+			{server6.WithLogger(server6.DebugLogger{Printfer: log.New(io.Discard, "", 0)})}}[s.rng.Intn(4)]...)...) // any logging configuration
 		if err != nil {
 			t.Fatal(err)
 		}
